@@ -1857,7 +1857,8 @@ pub fn type_check_module(
         if !missing_function_members.is_empty() {
           error_set.report_missing_class_member_definition_error(
             toplevel.name().loc,
-            missing_function_members.iter().copied().collect(),
+            // The members come out of hash sets: report them in a stable order.
+            missing_function_members.iter().copied().sorted().collect(),
           );
         }
         local_cx.write(c.loc, Arc::new(Type::Nominal(nominal_type)));
